@@ -265,7 +265,35 @@ fn handle_on_connection(
         | TcpState::LastAck => handle_established(k, fd, local, remote, s),
         TcpState::Closed => {
             // Socket is torn down but the TCB lingers until the shim
-            // drops its Fd. Ignore any late inbound traffic.
+            // drops its Fd. Ignore late inbound traffic, except a
+            // retransmitted FIN after a clean close: the ACK of the
+            // peer's FIN was lost, re-ACK it (the job TIME-WAIT does).
+            let recv_cap = k.recv_buf_cap;
+            let tcb = k.lookup(fd).unwrap().tcb.as_ref().unwrap();
+            if s.flags.fin && tcb.peer_fin && !tcb.reset && !tcb.timed_out {
+                let (seq, ack, window) = (
+                    tcb.snd_nxt,
+                    tcb.rcv_nxt,
+                    advertised_window(recv_cap, tcb.recv_buf.len()),
+                );
+                emit(
+                    k,
+                    local,
+                    remote,
+                    TcpSegment {
+                        src_port: local.port(),
+                        dst_port: remote.port(),
+                        seq,
+                        ack,
+                        flags: TcpFlags {
+                            ack: true,
+                            ..TcpFlags::default()
+                        },
+                        window,
+                        payload: Bytes::new(),
+                    },
+                );
+            }
         }
         TcpState::SynSent | TcpState::SynReceived => {
             // Handshake still in progress but segment doesn't match
@@ -365,6 +393,14 @@ fn handle_established(
                     other => other,
                 };
             }
+        }
+
+        // A segment that occupies sequence space but was not accepted
+        // (duplicate, out of order, or no room) still gets an ACK: the
+        // peer is retransmitting because our earlier ACK was lost, and
+        // only a fresh ACK stops it (RFC 9293 3.10.7.4).
+        if !s.payload.is_empty() || s.flags.fin || s.flags.syn {
+            send_ack = true;
         }
 
         if wake_write {
